@@ -513,6 +513,9 @@ func realOption(o c19Opt) (util.Option, error) {
 	case "WithUsernamePattern":
 		return options.WithUsernamePattern(regexp.MustCompile(tok)), nil
 	case "logging_WithLevel":
+		if len(o.env) == 1 {
+			return logging.WithLevel(string(o.env[0])), nil
+		}
 		return logging.WithLevel(tok), nil
 	case "logging_WithLogger":
 		if i, ok := tokIdx(tok, "logfn:", len(c19LFuncs)); ok {
@@ -606,12 +609,56 @@ func resolveFirst(paths ...string) (c19Val, bool) {
 
 var c19Words = []string{"a", "b", "-v", "-o", "x=1", "", "ü", "a b", "p:q|r;s", "zz", "#", "%s"}
 
+// Boundary values: every value generator mixes these in (about one value in three), so that an
+// option that trims, folds, re-parses or otherwise normalises its value is seen. All are valid
+// UTF-8 (a YAML scalar cannot carry arbitrary bytes).
+var c19Long = " " + strings.Repeat("long-value ", 300)
+
+var c19BoundaryStrings = []string{"", " ", "  ", " lead", "trail ", " both ", "\ttab\t", "\t", "line\n", "\nline", "a\r\nb\r\n", "\n",
+	c19Long, "üñí ✓ 日本 ", "\u00a0nbsp\u00a0", "0", "00", "-1", "1e3", "0x10", "true", "True", "false", "null", "Null", "~", "yes", "no",
+	".*[a-z]+$^(|)\\", "%s%d%!x", "'single'", "\"double\"", "#hash", ": colon", "- dash", "{a: b}", "[x, y]", "a,b", "&anchor", "*alias", "!tag", "|", ">",
+	"@at", "`tick`", "\x7f", "\x01ctl", "5s", "1m30s", "250ms"}
+
+// valid regular expressions whose text has significant blanks / looks like something else
+var c19BoundaryPatterns = []string{"(?m)^user@host:~\\$ ", "(?i)login: ", "(?i)password:\\s ", " ^lead", "trail\t", "\tlead", "a\nb", "tail\n", "\nhead", "",
+	" ", "0", "true", "null", "~", "ü+ ", "^[a-z]{1,3}\\.\\*$ ", "\\Q.*\\E ", "(?s).* ", " " + strings.Repeat("(a|b)?x", 200) + " ", "[ ]", "\\ ", "#>", "- $"}
+
+var c19BoundaryInts = []int{0, -1, 1, 65535, 65536, 2147483647, -2147483648, 9223372036854775807, -9223372036854775808}
+
+// multiples of 1/8 s whose nanosecond value is exact in float64 and fits a Duration (platform floats)
+var c19BoundaryEighths = []int{0, 1, -1, -12, 8, 8 * 86400, 8000000000, -8000000000}
+
+func c19BoundaryList(r *vlib.Rng) []string {
+	switch r.Intn(4) {
+	case 0:
+		return []string{}
+	case 1:
+		return []string{r.Pick(c19BoundaryStrings)}
+	case 2:
+		out := make([]string, 40)
+		for i := range out {
+			out[i] = r.Pick(c19BoundaryStrings)
+		}
+		return out
+	}
+	return []string{"", " ", ""}
+}
+
 // genOpt draws random arguments for the named option; invalid asks for a rejected value where the
 // option has one.
 func genOpt(r *vlib.Rng, name string, invalid bool) c19Opt {
 	o := c19Opt{name: name, envOk: true, env: c19Val{}}
-	word := func() string { return r.Pick(c19Words) }
+	boundary := r.Chance(1, 3)
+	word := func() string {
+		if boundary {
+			return r.Pick(c19BoundaryStrings)
+		}
+		return r.Pick(c19Words)
+	}
 	words := func() c19Val {
+		if boundary {
+			return lv(c19BoundaryList(r)...)
+		}
 		n := r.Intn(4)
 		v := c19Val{}
 		for i := 0; i < n; i++ {
@@ -620,8 +667,20 @@ func genOpt(r *vlib.Rng, name string, invalid bool) c19Opt {
 		return v
 	}
 	one := func(s string) { o.args = []c19Val{sv(s)} }
-	num := func(lo, hi int) { one(strconv.Itoa(r.Range(lo, hi))) }
-	re := func() { one("tok" + strconv.Itoa(r.Intn(50)) + r.Pick([]string{">", "#$", "[>#]", "\\s*$"})) }
+	num := func(lo, hi int) {
+		if boundary {
+			one(strconv.Itoa(c19BoundaryInts[r.Intn(len(c19BoundaryInts))]))
+			return
+		}
+		one(strconv.Itoa(r.Range(lo, hi)))
+	}
+	re := func() {
+		if boundary {
+			one(r.Pick(c19BoundaryPatterns))
+			return
+		}
+		one("tok" + strconv.Itoa(r.Intn(50)) + r.Pick([]string{">", "#$", "[>#]", "\\s*$"}))
+	}
 	switch name {
 	case "WithAuthBypass", "WithAuthNoStrictKey", "WithNetconfExcludeHeader", "WithNetconfForceSelfClosingTags":
 	case "WithAuthPassphrase", "WithAuthPassword", "WithAuthSecondary", "WithAuthUsername", "WithFileTransportFile",
@@ -635,6 +694,9 @@ func genOpt(r *vlib.Rng, name string, invalid bool) c19Opt {
 		one("impl:" + strconv.Itoa(r.Intn(c19N)))
 	case "WithDefaultDesiredPriv":
 		one(r.Pick([]string{"exec", "exec", "cfg", "p1", ""}))
+		if boundary {
+			one(word())
+		}
 		if !invalid && argS(o, 0) == "" {
 			one("exec")
 		}
@@ -664,6 +726,9 @@ func genOpt(r *vlib.Rng, name string, invalid bool) c19Opt {
 		num(1, 500)
 	case "WithReadDelay", "WithTimeoutOps", "WithTimeoutSocket":
 		one(strconv.FormatInt(int64(r.Range(1, 100000))*int64(time.Microsecond)*int64(c19Pick2(r, 1, 1000)), 10))
+		if boundary {
+			one(strconv.FormatInt([]int64{0, 1, -1, int64(time.Hour) * 24 * 365, 9223372036854775807, -9223372036854775808}[r.Intn(6)], 10))
+		}
 	case "WithPrivilegeLevels":
 		n := r.Range(1, 3)
 		if invalid {
@@ -697,10 +762,14 @@ func genOpt(r *vlib.Rng, name string, invalid bool) c19Opt {
 			one(r.Pick([]string{"ssh", "", "System", "netconf"}))
 		}
 	case "logging_WithLevel":
-		one(r.Pick([]string{"info", "debug", "critical"}))
+		// documented case-insensitive: the level is lower-cased before it is checked and stored; the
+		// model gets the lower-cased value, the real option the raw one (kept in env for replay)
+		raw := r.Pick([]string{"info", "debug", "critical", "INFO", "Debug", "CRITICAL", "iNfO"})
 		if invalid {
-			one(r.Pick([]string{"loud", "", "warn"}))
+			raw = r.Pick([]string{"loud", "", "warn", " info", "info ", "INFO\n"})
 		}
+		one(strings.ToLower(raw))
+		o.env = sv(raw)
 	case "logging_WithLogger":
 		one("logfn:" + strconv.Itoa(r.Intn(len(c19LFuncs))))
 	case "logging_WithFormatter":
@@ -1056,6 +1125,7 @@ func (p *c19Plat) yaml() []byte {
 // (`c19 names`): "an int" | "a string" | "a float" | "an array of strings" | "" (value unused).
 func genPlatOpt(r *vlib.Rng, name, documented string, wrongType bool) c19PlatOpt {
 	o := c19PlatOpt{name: name}
+	boundary := r.Chance(1, 3)
 	kind := map[string]byte{"an int": 'i', "a string": 's', "a float": 'f', "an array of strings": 'l', "": 'b'}[documented]
 	if wrongType {
 		alts := []byte{'i', 's', 'f', 'l', 'b', 'n'}
@@ -1075,17 +1145,31 @@ func genPlatOpt(r *vlib.Rng, name, documented string, wrongType bool) c19PlatOpt
 	switch kind {
 	case 'i':
 		o.n = r.Range(1, 60000)
+		if boundary {
+			o.n = c19BoundaryInts[r.Intn(len(c19BoundaryInts))]
+		}
 	case 's':
-		switch name {
-		case "transport-type":
+		switch {
+		case name == "transport-type":
 			o.s = r.Pick([]string{"system", "standard", "telnet", "file"})
-		case "return-char":
+		case name == "return-char":
 			o.s = r.Pick([]string{"\n", "\r\n", "\r"})
-		default:
+			if boundary {
+				o.s = r.Pick(c19BoundaryStrings)
+			}
+		case strings.HasSuffix(name, "-pattern"):
 			o.s = "ptok" + strconv.Itoa(r.Intn(50)) + r.Pick([]string{">", "#$", "[>#]"})
+			if boundary {
+				o.s = r.Pick(c19BoundaryPatterns)
+			}
+		default:
+			o.s = r.Pick(c19BoundaryStrings)
 		}
 	case 'f':
 		o.n = r.Range(1, 4000)
+		if boundary {
+			o.n = c19BoundaryEighths[r.Intn(len(c19BoundaryEighths))]
+		}
 	case 'l':
 		n := r.Intn(4)
 		for i := 0; i < n; i++ {
@@ -1093,6 +1177,9 @@ func genPlatOpt(r *vlib.Rng, name, documented string, wrongType bool) c19PlatOpt
 		}
 		if o.l == nil {
 			o.l = []string{}
+		}
+		if boundary {
+			o.l = c19BoundaryList(r)
 		}
 	case 'b':
 		o.b = r.Bool()
@@ -1444,6 +1531,24 @@ func runC19(c *ctx) {
 		platNames = append(platNames, string(n))
 	}
 
+	// rows of the regenerated tables that differ from the expected rows (Lean: changedOptionRows /
+	// changedPlatformRows): the search is directed at exactly these
+	var changedOpts, changedPlat []string
+	for _, part := range strings.Fields(c.ask([]string{"c19 rowdiff"})[0]) {
+		kv := strings.SplitN(part, "=", 2)
+		if len(kv) != 2 || kv[1] == "" {
+			continue
+		}
+		if kv[0] == "opts" {
+			changedOpts = strings.Split(kv[1], ",")
+		} else if kv[0] == "plat" {
+			changedPlat = strings.Split(kv[1], ",")
+		}
+	}
+	if len(changedOpts)+len(changedPlat) > 0 {
+		res.Note("regenerated table rows differ from the expected rows: options %v, platform options %v; search directed at them", changedOpts, changedPlat)
+	}
+
 	var cases []c19Case
 	netPrivs := func() []c19Opt {
 		return []c19Opt{genOpt(r, "WithPrivilegeLevels", false), {name: "WithDefaultDesiredPriv", args: []c19Val{sv("exec")}, envOk: true, env: c19Val{}}}
@@ -1530,6 +1635,9 @@ func runC19(c *ctx) {
 				for j := r.Range(1, 3); j > 0; j-- {
 					p.fwc = append(p.fwc, r.Pick(c19Words[:5]))
 				}
+				if r.Chance(1, 3) {
+					p.fwc = append(p.fwc, c19BoundaryList(r)...)
+				}
 			}
 			p.oo, p.oc, p.noo, p.noc = r.Chance(1, 3), r.Chance(1, 3), r.Chance(1, 3), r.Chance(1, 3)
 			class := "platform"
@@ -1569,6 +1677,47 @@ func runC19(c *ctx) {
 				u = append(u, genOpt(r, name, false))
 			}
 			cases = append(cases, c19Case{class: class, ctor: p.driverType, plat: p, user: u})
+		}
+		// (3b) directed: options / platform option names whose regenerated table row differs from
+		// the expected row (a table obligation is broken) are sampled heavily with boundary values,
+		// alone and among other options, through every constructor
+		for _, name := range changedOpts {
+			if _, ok := c19Named[name]; !ok {
+				continue
+			}
+			for i := 0; i < c.n(600, 6000); i++ {
+				ctor := r.Pick([]string{"generic", "network", "netconf"})
+				if strings.HasPrefix(name, "logging_") {
+					ctor = "logging"
+				}
+				var u []c19Opt
+				if ctor == "network" {
+					u = append(u, netPrivs()...)
+				}
+				if ctor != "logging" {
+					for j := r.Intn(3); j > 0; j-- {
+						u = append(u, genOpt(r, c19DriverOpts[r.Intn(len(c19DriverOpts))], false))
+					}
+				}
+				u = append(u, genOpt(r, name, false))
+				cases = append(cases, c19Case{class: "directed", ctor: ctor, user: u})
+			}
+		}
+		for _, name := range changedPlat {
+			if _, ok := platDoc[name]; !ok {
+				continue
+			}
+			for i := 0; i < c.n(600, 6000); i++ {
+				p := &c19Plat{driverType: r.Pick([]string{"network", "generic"})}
+				p.privs = genOpt(r, "WithPrivilegeLevels", false).args[0]
+				p.ddp = "exec"
+				for j := r.Intn(3); j > 0; j-- {
+					n := platNames[r.Intn(len(platNames))]
+					p.opts = append(p.opts, genPlatOpt(r, n, platDoc[n], false))
+				}
+				p.opts = append(p.opts, genPlatOpt(r, name, platDoc[name], false))
+				cases = append(cases, c19Case{class: "directed-platform", ctor: p.driverType, plat: p})
+			}
 		}
 		// (4) order independence: shuffled copies of compatible lists
 		for i := 0; i < c.n(2500, 120000); i++ {
